@@ -199,13 +199,26 @@ def run(ctx):
     # 3. format names through the receiver
     f = Stream("format-dispatch")
     frames = dump_frames("sysmex_xn550.txt")
-    for fmt in ["astm", "lis2a", "json", "xml", "", "JSON", None]:
+    from senaite.astm.wrapper import Wrapper
+    from senaite.astm.protocol import ASTMProtocol
+    # unknown names include everything that could be mistaken for a lookup key: attribute / method names of the
+    # wrapper and the protocol, with and without their to_ prefix, and near spellings of the three known names
+    names = ["astm", "lis2a", "json", "xml", "", "JSON", None, "Astm", "astm ", " json", "lis2a\n", "lis2", "text", "raw"]
+    for a in sorted(set(dir(Wrapper)) | set(dir(ASTMProtocol))):
+        if a.startswith("__"):
+            continue
+        names.append(a)
+        if a.startswith("to_"):
+            names.append(a[3:])
+    seen = set()
+    for fmt in [n for n in names if not (n in seen or seen.add(n))]:
         c = impl.Conn(fmt=fmt, use_default_fmt=(fmt is None))
         c.event(("d", b"\x05"))
         for fr in frames:
             c.event(("d", fr))
         ob = c.event(("d", b"\x04"))
         f.case({"format": fmt})
+        f.count("known" if fmt in ("astm", "json", None) else "other-name")
         item = ob["delivered"][0] if ob["delivered"] else None
         if fmt == "astm":
             exp = b"\n".join(frames).decode("latin-1")
